@@ -169,3 +169,28 @@ Proof.
   rewrite (len_eq_yielded s (order (epoch s))); [reflexivity| |exact Hl].
   unfold wf; auto.
 Qed.
+
+(* EpochRandomSampler's order is NumPy's permutation for (base_seed, epoch) over exactly [total] items - for every
+   effective_total, rank, world size and epoch counter of the sampler *)
+Lemma ers_order_tie perm seed s e :
+  Interp.run (ext_rs perm) ers_order [("self", rand_self seed s); ("epoch", VInt e)]
+  = Ok (vnats (perm seed e (total s)))
+       (mkState [("self", rand_self seed s); ("epoch", VInt e);
+                 ("rs", VTuple [VStr "$rs"; VInt seed; VInt e]); ("shuffled", vnats (perm seed e (total s)))] []).
+Proof.
+  unfold Interp.run, ers_order, rand_self, zn, vnats. cbn.
+  replace (0 <=? Z.of_nat (total s))%Z with true by lia. cbn. rewrite Nat2Z.id. reflexivity.
+Qed.
+
+(* hence independent of the process group: two samplers over the same data with the same seed, in whatever groups and
+   uneven-handling modes, get the same epoch order *)
+Lemma ers_order_env_independent perm seed s1 s2 e : total s1 = total s2 ->
+  exists st1 st2 v,
+    Interp.run (ext_rs perm) ers_order [("self", rand_self seed s1); ("epoch", VInt e)] = Ok v st1 /\
+    Interp.run (ext_rs perm) ers_order [("self", rand_self seed s2); ("epoch", VInt e)] = Ok v st2.
+Proof.
+  intros Ht. do 2 eexists. exists (vnats (perm seed e (total s1))). split.
+  - apply ers_order_tie.
+  - rewrite Ht. apply ers_order_tie.
+Qed.
+
